@@ -108,6 +108,10 @@ where
                 "v_neg" => (u, -vv),
                 "v_id" => (u, id),
                 "uv_id" => (id, id),
+                "forge_v_id" => {
+                    let h = <C as HashToPoint>::hash_to_point(&msg, crate::signcrypt::dst_of::<C>(scheme_of(scheme)));
+                    (-(h * y.0), id)
+                }
                 _ => (u, vv),
             };
             let label2 = if pert == "label" { gets(v, "scheme2") } else { label };
